@@ -94,7 +94,7 @@ def wb_postscale(rgb, wr, wg, wb, safe=False, saturation=None):
             saturation = [saturation]*3
 
         ratio = 1  # descaling ratio
-        for i in range(2):
+        for i in range(3):
             plane = rgb[..., i]
             sat = saturation[i]
             mx = plane.max()
